@@ -138,7 +138,7 @@ def r_forward(F, V):
         if im.get("trait") not in ITER_TRAITS or im["self_ty"].get("k") != "adt":
             continue
         X = im["self_ty"]["path"]
-        if X.startswith("raw::") or X.startswith("control::"):
+        if (X.startswith("raw::") and X not in ("raw::RawDrain", "raw::RawIntoIter")) or X.startswith("control::"):
             continue
         a = F.adts.get(X)
         if not a or a["kind"] != "struct":
